@@ -5,7 +5,12 @@ C14 — model of the x86_64 dynamic patcher without capstone:
                                 mcount_patch_func (:591, the size rule),
                                 unpatch_func (:530), mcount_unpatch_func (:625),
                                 mcount_setup_trampoline (:26),
-                                mcount_cleanup_trampoline (:94)
+                                mcount_cleanup_trampoline (:94),
+                                the signature scan of mcount_arch_find_module (:208)
+                                (`detectTypeG fixed`: fixed = false is the code as it
+                                is — it does not skip endbr64, finding "endbr64 + NOP
+                                module is classified DYNAMIC_NONE"; fixed = true is the
+                                proposed repair)
   libmcount/dynamic.c           skip_sym (:461), patch_normal_func_matched (:552),
                                 patch_patchable_func_matched (:500),
                                 do_dynamic_update (:600), freeze_dynamic_update (:631)
